@@ -6,6 +6,7 @@ package main
 // account-management entry points that the session handlers hand over to.
 
 import (
+	"strings"
 	"encoding/json"
 	"time"
 
@@ -89,20 +90,23 @@ func (s verifStoreObj) GetAuthNames() []string {
 	return []string{"basic", "token"}
 }
 func (s verifStoreObj) GetAuthHandler(name string) auth.AuthHandler {
-	if h, ok := s.handlers[name]; ok {
+	if h, ok := s.handlers[strings.ToLower(name)]; ok {
 		return h
 	}
 	return nil
 }
 func (s verifStoreObj) GetLogicalAuthHandler(name string) auth.AuthHandler {
-	if h, ok := s.handlers[name]; ok {
+	if h, ok := s.handlers[strings.ToLower(name)]; ok {
 		return h
 	}
 	return nil
 }
 func (verifStoreObj) GetValidator(name string) validate.Validator { return nil }
-func (verifStoreObj) GetMediaHandler() media.Handler             { return nil }
+func (verifStoreObj) GetMediaHandler() media.Handler             { return verifMediaHandler }
 func (verifStoreObj) UseMediaHandler(name, config string) error  { return nil }
+
+// media handler handed out by the fake store (nil unless a harness installs one)
+var verifMediaHandler media.Handler
 
 func verifInstallStoreObj(outcome *verifAuthOutcome) verifStoreObj {
 	so := verifStoreObj{handlers: map[string]*verifAuthHandler{
